@@ -197,6 +197,15 @@ impl<'a> Eval<'a> {
         if a.args.iter().any(|t| t.has_proj() || t.has_qvar() || t.has_param()) {
             return None;
         }
+        // a trait object implements its own trait; what else it implements (supertraits, auto traits) is
+        // outside the modelled fragment
+        if let Ty::Bi(Bi::Dyn(dt), _) = &a.args[0] {
+            if *dt == a.tr {
+                out.push(vec![]);
+            } else if tr.lang.is_none() {
+                return None;
+            }
+        }
         for im in &self.p.impls {
             if !im.positive || im.head.tr != a.tr {
                 continue;
